@@ -338,6 +338,16 @@ func suiteWatch(t *testing.T, cfg cfgT) {
 				events++
 				continue
 			}
+			if !scripted && hr.chance(1, 8) {
+				// something the watcher can only report as an error: a dangling symlink appears in the watched directory.
+				// Nothing visible changes - and the watcher must still be alive for the events that follow
+				_ = os.Symlink(filepath.Join(dir, "does-not-exist"), filepath.Join(dir, fmt.Sprintf("zz_dangling_%d%s", i, ext)))
+				time.Sleep(250 * time.Millisecond)
+				out.emit("wtouch - -", strings.TrimSpace(fmt.Sprintf("%s ; seen %s", nsNames(m), strings.Join(smp.take(), " | "))))
+				out.stat("watcher_error_event")
+				events++
+				continue
+			}
 			if !scripted && hr.chance(1, 6) {
 				_ = os.Remove(filepath.Join(dir, f+ext))
 				e = ev{kind: "remove", file: f + ext}
